@@ -90,7 +90,12 @@ def asm_group(d):
 
 
 PROPS["C05"] = {
-    "theorems": [],
+    "theorems": [
+        "Lace.C05.assemble_no_panic",
+        "Lace.C05.diag_points_inside",
+        "Lace.C05.token_progress",
+        "Lace.C05.assemble_terminates",
+    ],
     "compare": cmp_default,
     "classify": asm_classify,
     "nontrivial": asm_nontrivial,
